@@ -13,6 +13,7 @@ from .. import env
 from ..ref import isa, sigmsg
 
 ID = 'C13'
+BUILDER_DEFAULTS = True     # tools.* goes through tsverif/omit.py
 RULE = ('scenarios = seeds x sigfield subsets / contents (0..200 bytes incl. '
         'bytes spelling tokens, quotes, braces) x (flag, allowed) pairs x '
         'committed / surrogate scripts (verdict-diverse, up to ~900 bytes); '
